@@ -184,6 +184,9 @@ func (t *TrafBox) Info(w io.Writer, specificBoxLevels, indent, indentStep string
 func (t *TrafBox) OptimizeTfhdTrun() error {
 	tfhd := t.Tfhd
 	trun := t.Trun
+	if tfhd == nil {
+		return errors.New("no tfhd in traf")
+	}
 	if trun == nil {
 		return nil // No trun (track without samples in this fragment), nothing to optimize
 	}
